@@ -8,14 +8,25 @@ an agent object that carries it (`NodeValue(name, value)` …: the carrier count
 The taint is propagated inside each function, through `self.<attr>` of a class, and from call arguments to the
 parameters of every analysed function of that name (fixed point).  For each operation on such a value one row:
 
-    read  getattr|getitem|str|repr|len|iter|contains|eq|bool|hash|type|format|method:<name>
-    write setitem|delitem|setattr|delattr|method:<mutator>          <- must not exist (theorem C01.c01_no_host_writes)
-    pass  call:<callee>      (the value is handed to code outside the analysed files: plugins, eval, constructors)
+    read    getattr|getitem|str|repr|len|number|iter|contains|eq|bool|hash|type|format|method:<name>
+    write   setitem|delitem|setattr|delattr|method:<mutator>        <- must not exist (theorem C01.c01_no_host_writes)
+    call    a host callable is CALLED            enter  `with <host object>`
+    arith   an arithmetic dunder / abs / round   consume `next(<host iterator>)`      <- none of these is allowed
+    pass    call:<callee>   the value is handed to code outside the analysed files; the callee is named (bare name,
+            `self.m`, `local.m` = method of a local agent container/record, else the full dotted text) and must be on
+            the REVIEWED list `HostTouch.allowedCallees` — anything else (`operator.setitem`, `dict.update`, `exec`,
+            a helper in a file outside FILES, ctypes…) fails `c01_host_touch_in_table`.
+  Functions have a RETURN summary (fixed point over their `return`s; properties too), so the value of
+  `self.trigger_context.evaluate_expression(..)` / `.locals` stays host-aliased in the caller.
+  Known limits (disclosed, not guessed away): `iter` rows (for / list() / tuple() / sorted()…) CONSUME the value when it is
+  a one-shot iterator — the collector restricts them by exact type name (C05's LIST_LIKE_TYPES), which this table does not
+  see (hosts `one_shot` of the differential oracle do); methods are resolved by bare name (a host object's method that
+  has the name of an agent method is taken for the agent's); no aliasing through containers beyond one subscript.
 
 Raise `Untranslatable` for syntax the walker does not know (never guessed).  Trusted: this analysis (names resolved by
-simple name, no aliasing through containers the agent builds itself); it is cross-checked dynamically by the recording
-`Spy` host objects of harness/hostprogs.py (props/c01.py: every dunder touched while `trace_call` is active must be
-explained by a row of this table, and none may be a write).
+simple name).  Dynamic cross-check: the recording host `spy` of harness/hostprogs.py (one corpus scenario of props/c01.py):
+every dunder the real agent touches on it while `trace_call` is active must be explained by a row of the table (Lean driver
+op `host_touch`) and must be a side-effect-free protocol (oracle).
 """
 import ast
 
@@ -33,10 +44,11 @@ FILES = ['src/deep/processor/frame_collector.py', 'src/deep/processor/variable_p
 ROOT_ATTRS = {'f_locals', 'f_globals', 'f_back'}
 FRESH = {'str', 'repr', 'len', 'id', 'type', 'isinstance', 'hash', 'bool', 'int', 'float', 'hasattr', 'callable', 'issubclass'}
 ITER_BUILTINS = {'list', 'tuple', 'iter', 'sorted', 'reversed', 'enumerate', 'zip', 'set', 'frozenset', 'dict', 'sum', 'any',
-                 'all', 'min', 'max', 'map', 'filter', 'next'}
+                 'all', 'min', 'max', 'map', 'filter'}
+ARITH_BUILTINS = {'abs', 'round', 'divmod', 'pow'}
 READ_PROTO = {'str': 'str', 'repr': 'repr', 'len': 'len', 'hash': 'hash', 'bool': 'bool', 'id': 'type', 'type': 'type',
               'isinstance': 'type', 'issubclass': 'type', 'callable': 'type', 'hasattr': 'getattr', 'getattr': 'getattr',
-              'dir': 'getattr', 'vars': 'getattr', 'int': 'str', 'float': 'str', 'format': 'format'}
+              'dir': 'getattr', 'vars': 'getattr', 'int': 'number', 'float': 'number', 'format': 'format'}
 MUTATORS = {'pop', 'popitem', 'clear', 'update', 'setdefault', 'append', 'extend', 'insert', 'remove', 'sort', 'reverse',
             'add', 'discard', 'appendleft', 'popleft', 'rotate', 'send', 'throw', 'close', 'write', 'seek', 'truncate',
             '__setitem__', '__delitem__', '__setattr__', '__delattr__', '__next__', 'difference_update',
@@ -54,6 +66,9 @@ class Fn:
         self.params = [x.arg for x in a.posonlyargs + a.args] + [x.arg for x in a.kwonlyargs]
         self.is_method = cls is not None and self.params[:1] == ['self']
         self.key = rel[len('src/'):] + ':' + qual
+        self.ret = 0                # level of what the function can return (fixed point over its `return`s)
+        self.is_property = any(ast.unparse(d) in ('property', 'abc.abstractproperty') for d in node.decorator_list)
+        self.locals = set(self.params) | {n.id for n in ast.walk(node) if isinstance(n, ast.Name) and isinstance(n.ctx, ast.Store)}
         self.tainted = {}
         for x in a.posonlyargs + a.args + a.kwonlyargs:
             ann = ast.unparse(x.annotation) if x.annotation is not None else ''
@@ -104,8 +119,17 @@ class Walker:
             if isinstance(e.value, ast.Name) and e.value.id == 'self' and self.fn.cls:
                 return self.self_attrs.get((self.fn.rel, self.fn.cls, e.attr), 0)
             # what is read OUT OF a carrier (`node.value`, `node_value.value`) may be the host value itself
-            return 2 if self.t(e.value) else 0
-        if isinstance(e, (ast.Subscript, ast.Starred)):
+            base = self.t(e.value)
+            props = [g for g in self.by_name.get(e.attr, []) if g.is_property]
+            if base == 1 and props:
+                # a property of an agent carrier class: what it returns is known (Node.depth is a number, Node.value is the
+                # host value); an attribute that is not a known property is taken to be the host value
+                return 2 if max(g.ret for g in props) else 0
+            lv = 2 if base else 0
+            return max([lv] + [g.ret for g in props])
+        if isinstance(e, ast.Subscript):
+            return 2 if self.t(e.value) else 0          # an item of an agent-built container may be the host value
+        if isinstance(e, ast.Starred):
             return self.t(e.value)
         if isinstance(e, ast.Call):
             f = e.func
@@ -116,15 +140,17 @@ class Walker:
                     return 2
                 if f.id in FRESH:
                     return 0
-                if f.id == 'getattr' or f.id in ITER_BUILTINS:
+                if f.id == 'getattr' or f.id in ITER_BUILTINS or f.id == 'next':
                     return amax
-                return min(amax, 1)
+                return max([min(amax, 1)] + [g.ret for g in self.by_name.get(f.id, [])])
             if isinstance(f, ast.Attribute):
+                rets = [g.ret for g in self.by_name.get(f.attr, []) if not g.is_property]
                 r = self.t(f.value)
                 if r:
-                    return 0 if f.attr in ('startswith', 'endswith', 'format', 'join', 'lower', 'upper', 'strip', 'split') else r
-                return min(amax, 1)
-            return min(amax, 1)
+                    r = 0 if f.attr in ('startswith', 'endswith', 'format', 'join', 'lower', 'upper', 'strip', 'split') else r
+                    return max([r] + rets)
+                return max([min(amax, 1)] + rets)
+            return 2 if self.t(f) == 2 else min(amax, 1)
         if isinstance(e, ast.IfExp):
             return max(self.t(e.body), self.t(e.orelse))
         if isinstance(e, ast.BoolOp):
@@ -202,8 +228,12 @@ class Walker:
                 self.row('read', 'bool', n)
             elif isinstance(n, ast.FormattedValue) and self.t(n.value):
                 self.row('read', 'format', n)
-            elif isinstance(n, ast.BinOp) and isinstance(n.op, ast.Mod) and self.t(n.right):
+            elif isinstance(n, ast.BinOp) and isinstance(n.op, ast.Mod) and self.t(n.right) and not self.t(n.left):
                 self.row('read', 'str', n)
+            elif isinstance(n, ast.BinOp) and (self.t(n.left) == 2 or self.t(n.right) == 2):
+                self.row('arith', type(n.op).__name__, n)
+            elif isinstance(n, ast.UnaryOp) and not isinstance(n.op, ast.Not) and self.t(n.operand) == 2:
+                self.row('arith', type(n.op).__name__, n)
             elif isinstance(n, (ast.ListComp, ast.SetComp, ast.GeneratorExp, ast.DictComp)):
                 for g in n.generators:
                     if self.t(g.iter):
@@ -216,7 +246,16 @@ class Walker:
         args = list(n.args)
         kws = {k.arg: k.value for k in n.keywords if k.arg}
         tainted_args = [a for a in args + list(kws.values()) if self.t(a)]
+        if not isinstance(f, ast.Attribute) and self.t(f) == 2:
+            self.row('call', 'call', n)                 # CALLING a host callable runs host code with side effects
+            return
         if isinstance(f, ast.Name):
+            if f.id == 'next' and tainted_args:
+                self.row('consume', 'next', n)          # advances a host iterator
+                return
+            if f.id in ARITH_BUILTINS and tainted_args:
+                self.row('arith', f.id, n)
+                return
             if f.id in READ_PROTO and tainted_args:
                 self.row('read', READ_PROTO[f.id], n)
                 return
@@ -248,7 +287,7 @@ class Walker:
             targets = [g for g in self.by_name.get('__init__', []) if g.cls and g.cls.split('.')[-1] == name]
             skip_self = True
         if not targets:
-            self.row('pass', 'call:' + name, n)
+            self.row('pass', 'call:' + self.callee(f), n)
             return
         for g in targets:
             params = g.params[1:] if (g.is_method and skip_self) else g.params
@@ -260,6 +299,22 @@ class Walker:
                 if k in g.params and g.tainted.get(k, 0) < self.t(a):
                     g.tainted[k] = self.t(a)
                     self.changed = True
+
+    def callee(self, f):
+        """how the callee of a `pass` row is named: a bare name; `self.<method>`; `local.<method>` for a method of a local
+        variable / parameter of the function (an agent container or record); otherwise the full dotted text
+        (`operator.setitem`, `dict.update`, `os.path.basename`, `ctypes.pythonapi.PyFrame_LocalsToFast`)"""
+        if isinstance(f, ast.Name):
+            return f.id
+        root = f
+        while isinstance(root, (ast.Attribute, ast.Subscript, ast.Call)):
+            root = root.value if not isinstance(root, ast.Call) else root.func
+        if isinstance(root, ast.Name):
+            if root.id == 'self':
+                return 'self.' + f.attr
+            if root.id in self.fn.locals:
+                return 'local.' + f.attr
+        return ' '.join(ast.unparse(f).split())[:60]
 
     # ------------------------------------------------------------------ statements
     def target_ops(self, tgt, deleting=False):
@@ -325,6 +380,9 @@ class Walker:
         elif isinstance(s, ast.Return):
             if s.value is not None:
                 self.ops(s.value)
+                if self.t(s.value) > self.fn.ret:
+                    self.fn.ret = self.t(s.value)
+                    self.changed = True
         elif isinstance(s, (ast.If, ast.While)):
             self.ops(s.test)
             if self.t(s.test):
@@ -341,6 +399,8 @@ class Walker:
         elif isinstance(s, (ast.With, ast.AsyncWith)):
             for it in s.items:
                 self.ops(it.context_expr)
+                if self.t(it.context_expr) == 2:
+                    self.row('enter', 'with', it.context_expr)      # host __enter__/__exit__
                 if it.optional_vars is not None and self.t(it.context_expr):
                     self.bind(it.optional_vars, self.t(it.context_expr))
             self.stmts(s.body)
